@@ -21,7 +21,6 @@ VARIABLES l,      \* next trace line
           cov     \* coverage counters (vacuity guards of the runner)
 
 Trace == ndJsonDeserialize("trace.ndjson")
-TKeys == DOMAIN Trace[1].views[1].idx
 
 tvars == <<nh, parent, trusted, own, built, reply, calls, hist, l, dead, cov>>
 
@@ -34,7 +33,7 @@ ObsOK(views, S2, devs) ==
        LET v == ViewS(S2, h) IN
        /\ Len(views[h].pubs) > Len(v)       \* the interrogation reached beyond the end of the history
        /\ \A x \in 1..Len(views[h].pubs) : views[h].pubs[x] = KeyAt(v, x - 1)
-       /\ \A k \in TKeys :
+       /\ \A k \in DOMAIN views[h].idx :
             LET want == IndexOf(v, k)
                 got  == views[h].idx[k]
             IN  \/ got = want
